@@ -194,6 +194,42 @@ Proof.
   eapply cr_trans; [apply Hhub; exact Hp|]. apply cr_sym. apply Hhub. exact Hq.
 Qed.
 
+(* the same when only the hub is known to lie in the box (the sphere may be cut by the box, e.g. a
+   half-disc whose centre sits on a boundary face) *)
+Lemma clos_invariant {A : Type} (R : A -> A -> Prop) (P : A -> Prop) :
+  (forall u v, R u v -> P u /\ P v) -> forall a b, clos R a b -> (P a <-> P b).
+Proof.
+  intros H a b Hc. induction Hc as [x|x y _ IH|x y z _ IH1 _ IH2|x y Hs]; try tauto.
+  destruct (H x y Hs). tauto.
+Qed.
+
+Theorem ball_connected_hub g c r : grid_ok g -> nonper g -> length c = length g ->
+  in_rangeL (gshape g) (centre_cell g c) ->
+  (forall p, In p (ball_cells g c r) -> conn0 cell (ball_cells g c r) face_adj p (centre_cell g c)) /\
+  (ball_cells g c r <> [] -> In (centre_cell g c) (ball_cells g c r)).
+Proof.
+  intros Hok Hnp Hlen Hhub.
+  assert (Hpath : forall p, In p (ball_cells g c r) ->
+                    0 <= r /\ within g c (r * r) p = true /\
+                    clos (wstep g c (r * r)) p (centre_cell g c)).
+  { intros p Hp. apply ball_cells_spec in Hp. destruct Hp as [Hpr Hpi].
+    pose proof Hpi as Hpi'. apply inside_iff in Hpi'. destruct Hpi' as [Hr0 _].
+    rewrite (inside_within g c r p Hr0) in Hpi. split; [exact Hr0|]. split; [exact Hpi|].
+    exact (path_to_centre g Hnp Hok c (r * r) p Hlen Hpr Hhub Hpi). }
+  split.
+  - intros p Hp. destruct (Hpath p Hp) as (Hr0 & _ & H). unfold conn0. revert H. apply clos_mono.
+    intros u v (Hu & Hv & Hwu & Hwv & Hf). unfold step0.
+    split; [apply ball_cells_spec; split; [exact Hu|rewrite (inside_within g c r u Hr0); exact Hwu]|].
+    split; [apply ball_cells_spec; split; [exact Hv|rewrite (inside_within g c r v Hr0); exact Hwv]|].
+    exact Hf.
+  - intros Hne. destruct (ball_cells g c r) as [|p ps] eqn:E; [congruence|].
+    assert (Hp : In p (ball_cells g c r)) by (rewrite E; left; reflexivity). rewrite <- E.
+    destruct (Hpath p Hp) as (Hr0 & Hw & H).
+    apply (clos_invariant (wstep g c (r * r)) (fun u => within g c (r * r) u = true)) in H.
+    + apply ball_cells_spec. split; [exact Hhub|]. rewrite (inside_within g c r _ Hr0). apply H. exact Hw.
+    + intros u v (_ & _ & Hwu & Hwv & _). split; assumption.
+Qed.
+
 (* the same for any list of cells with the same members *)
 Corollary ball_connected_cells g c r (cells : list cell) : grid_ok g -> nonper g -> fits g c r ->
   (forall p, In p cells <-> In p (ball_cells g c r)) ->
@@ -275,6 +311,7 @@ Qed.
 
 Print Assumptions path_to_centre.
 Print Assumptions ball_connected.
+Print Assumptions ball_connected_hub.
 Print Assumptions ball_connected_cells.
 Print Assumptions ball_box_conn.
 Print Assumptions ball_example.
